@@ -5,8 +5,8 @@ once, only live pending entries", for the model of `SynchronousHyperbandSchedule
 (`Model/SyncScheduler.lean`, `Sync.Sched`) and the model of the data bookkeeping of the GP
 searcher (`Model/SearcherState.lean`, `SState`) running together: every searcher call an
 operation emits is translated (`trCall`) and applied, in order, to the searcher state (`applyActs`:
-`SState.apply`, or `drop_pending_evaluation` alone for a NaN result passed with `update=True` —
-the behaviour of /repo since commit 161f60e) by `stepCS` (`Lemmas/C14SyncDefs.lean`).  Proved for ALL histories, in the style of `Props/C14Comp.lean`
+`SState.apply`, or `drop_pending_evaluation` + `mark_trial_failed` for a NaN result passed with
+`update=True` — the behaviour of /repo since commit b827303) by `stepCS` (`Lemmas/C14SyncDefs.lean`).  Proved for ALL histories, in the style of `Props/C14Comp.lean`
 (asynchronous `HyperbandScheduler`).
 
 * `SysS` = scheduler + searcher state + the ghost map `last` (level of the last result a trial
@@ -147,16 +147,26 @@ theorem pending_exact_sync (y0 : SysS) (h0 : CInvS y0) (ops : List Op) (hok : Op
 invariant: after `on_trial_error(t)` no pending entry of `t` remains; after an
 `on_trial_result` (within the contract) whose answer is PAUSE (the milestone report — with a
 finite OR a NaN metric value) or STOP no pending entry of the reporting trial remains; and
-`on_trial_complete` (within the contract) changes nothing — the trial has been paused at its
-milestone before. -/
+`on_trial_complete` (within the contract) changes neither the scheduler nor the pending
+evaluations nor the data (with a finite value nothing at all; a NaN value only marks the trial as
+failed) — the trial has been paused at its milestone before. -/
 theorem no_pending_after_end_sync (y : SysS) (h : CInvS y) :
     (∀ t, ∀ p ∈ (stepCS y (.error t)).st.pending, p.1 ≠ t) ∧
     (∀ t r v s' d calls, OpOKS y (.result t r v) → y.sched.onResult t r v = .ok (s', d, calls) →
       d ≠ .continue → ∀ p ∈ (stepCS y (.result t r v)).st.pending, p.1 ≠ t) ∧
-    (∀ t r v, OpOKS y (.complete t r v) → stepCS y (.complete t r v) = y) :=
-  ⟨fun t => error_no_pending h t,
-   fun t r v _ _ _ hok hres hd => result_end_no_pending h t r v hok hres hd,
-   fun t r v hok => stepCS_complete h t r v hok⟩
+    (∀ t r v, OpOKS y (.complete t r v) →
+      (stepCS y (.complete t r v)).sched = y.sched ∧
+      (stepCS y (.complete t r v)).st.pending = y.st.pending ∧
+      (stepCS y (.complete t r v)).st.observed = y.st.observed ∧
+      (∀ x, v = .val x → stepCS y (.complete t r v) = y)) := by
+  refine ⟨fun t => error_no_pending h t,
+    fun t r v _ _ _ hok hres hd => result_end_no_pending h t r v hok hres hd, ?_⟩
+  intro t r v hok
+  obtain ⟨st', hp, ho, _, hv, he⟩ := stepCS_complete h t r v hok
+  rw [he]
+  refine ⟨rfl, hp, ho, ?_⟩
+  intro x hx
+  rw [hv x hx]
 
 /-! ### (b) each observation once, with the reported value -/
 
@@ -334,14 +344,16 @@ metric values is needed).  The new trial 0 (pending evaluation `(0, 1)`) reports
 milestone 1: the history is within the contract; the bracket records the slot as failed,
 `(0, NaN)`, the trial leaves `_trial_to_pending_slot` (answer PAUSE); the searcher's `_update`
 "rejects NaN or infinite values" — no observation — but drops the pending evaluation the result
-replaces: nothing is pending at the end.  (Before commit 161f60e of /repo the pending evaluation
-`(0, 1)` stayed for ever; replayed on the fixed code: same state as here.) -/
+replaces and marks the trial as failed: nothing is pending at the end, `failed_trials = [0]`.
+(Before commit b827303 of /repo the pending evaluation `(0, 1)` stayed for ever; replayed on the
+fixed code: same state as here.) -/
 theorem nan_report_drops_pending :
     OpsOKS exUnit [.suggest 0 true, .result 0 1 .nan] ∧
     (runCS exUnit [.suggest 0 true]).st.pending = [(0, 1)] ∧
     (runCS exUnit [.suggest 0 true, .result 0 1 .nan]).st.pending = [] ∧
     (runCS exUnit [.suggest 0 true, .result 0 1 .nan]).sched.pending.map (·.1) = [] ∧
     (runCS exUnit [.suggest 0 true, .result 0 1 .nan]).st.observed = [] ∧
+    (runCS exUnit [.suggest 0 true, .result 0 1 .nan]).st.failed = [0] ∧
     (runCS exUnit [.suggest 0 true, .result 0 1 .nan]).sched.mgr.brackets.map (fun b => b.rungs.map (·.slots)) =
       [[[⟨some 0, some .nan⟩]], [[⟨none, none⟩]]] := by
   decide +kernel
@@ -371,8 +383,8 @@ the searcher stores an observation at level 2, which is not a rung level
 pending evaluation `(0, 3)`.  (2) `on_trial_complete` with a level-3 result which was never
 passed to `on_trial_result`: the pending evaluation of the running, started trial disappears
 (`pending_exact_sync` fails) and the data contains a value no `on_trial_result` reported.
-(3) The same with a NaN value: nothing is stored, but the pending evaluation of the running trial
-is dropped all the same. -/
+(3) The same with a NaN value: nothing is stored (the trial is marked failed), but the pending
+evaluation of the running trial is dropped all the same. -/
 theorem complete_counterexample :
     ¬ OpsOKS exOne [.suggest 0 true, .result 0 2 (.val 1), .complete 0 2 (.val 1)] ∧
     (runCS exOne [.suggest 0 true, .result 0 2 (.val 1), .complete 0 2 (.val 1)]).st.observed = [(0, [(2, 1)])] ∧
@@ -431,7 +443,7 @@ example : OpsOKS exAll (histA.take 11 ++ .result 1 2 (.val 2) :: histA.drop 12) 
     (runCS exAll (histA.take 11)).sched.searcherAll = true := by decide +kernel
 
 /-- NaN reports of a started trial, policy `all`, single rung `(1,3)`: NaN at level 1 (nothing
-stored, `(0, 1)` is not pending: nothing dropped), a finite value at level 2, NaN at the milestone 3
+stored, `(0, 1)` is not pending: nothing dropped, trial marked failed), a finite value at level 2, NaN at the milestone 3
 (the pending evaluation `(0, 3)` is dropped, no observation at 3) — replayed on the real code -/
 example : OpsOKS exOneAll [.suggest 0 true, .result 0 1 .nan, .result 0 2 (.val 2), .result 0 3 .nan] ∧
     (runCS exOneAll [.suggest 0 true, .result 0 1 .nan, .result 0 2 (.val 2)]).st.pending = [(0, 3)] ∧
@@ -439,7 +451,10 @@ example : OpsOKS exOneAll [.suggest 0 true, .result 0 1 .nan, .result 0 2 (.val 
     (runCS exOneAll [.suggest 0 true, .result 0 1 .nan, .result 0 2 (.val 2), .result 0 3 .nan]).st.observed =
       [(0, [(2, 2)])] ∧
     (runCS exOneAll [.suggest 0 true, .result 0 1 .nan, .result 0 2 (.val 2), .result 0 3 .nan]).sched.pending.map (·.1)
-      = [] := by decide +kernel
+      = [] ∧
+    (runCS exOneAll [.suggest 0 true, .result 0 1 .nan]).st.failed = [0] ∧
+    (runCS exOneAll [.suggest 0 true, .result 0 1 .nan, .result 0 2 (.val 2), .result 0 3 .nan]).st.failed = [0] := by
+  decide +kernel
 
 /-- NaN reports of a resumed trial (no pending evaluation): trial 1 reports NaN at level 2 and at
 its milestone 3 — the searcher stores nothing (and has nothing to drop), the bracket marks the
